@@ -281,7 +281,9 @@ class MDiGraph(Model):
         self._pred[v][u] = None
 
     def add_edges_from(self, es, **attr):
-        for e in list(es):
+        # networkx adds each edge as the iterable produces it: a generator that checks (and raises) between two edges leaves the
+        # earlier ones in the graph
+        for e in (es if not isinstance(es, dict) and hasattr(es, "__next__") else list(es)):
             self.add_edge(e[0], e[1])
 
     def remove_node(self, n):
